@@ -336,6 +336,7 @@ func FuzzWildcard(f *testing.F) {
 	f.Add("a*b?c", "axxbyc")
 	f.Add("**", "")
 	f.Add("?*?", "ab")
+	f.Add("**********1", "00000000000000000000000000000000") // many stars: once blew up the reference matcher
 	f.Fuzz(func(t *testing.T, p, s string) {
 		if len(p) > 40 || len(s) > 40 || strings.ContainsAny(s, "*?") || !utf8.ValidString(p) || !utf8.ValidString(s) {
 			return
